@@ -337,6 +337,10 @@ class CachedEvaluationMapper(CachedMapper, EvaluationMapper):
      """                    \\
 """,
      "fixed defect D12 comes back (a float -1.0 factor is printed as a subtraction)"),
+    ("c14-revert-d16", "C14", STR,
+     "                    and expr.children[0] == -1:",
+     "                    and not (expr.children[0] + 1):",
+     "fixed defect D16 comes back (numpy.uint8(255) + 1 wraps to 0 and is taken for -1)"),
     ("c14-revert-d13", "C14", CC,
      "        force_parens_around = (Comparison, BitwiseAnd, BitwiseOr, BitwiseXor)",
      "        force_parens_around = (Comparison,)",
